@@ -33,8 +33,13 @@ func c12Hashes(c c12Case) ([]h32, []*chainhash.Hash) {
 }
 
 func c12Eval(count uint32, hs []h32, ps []*chainhash.Hash, flags []byte) (string, error) {
-	msg := wire.MsgMerkleBlock{Transactions: count, Hashes: ps, Flags: flags}
+	// the flag bytes are the caller's buffer: it is overwritten once the message has been handed over
+	flagsArg := append([]byte{}, flags...)
+	msg := wire.MsgMerkleBlock{Transactions: count, Hashes: ps, Flags: flagsArg}
 	pb := merkleblock.NewMerkleBlockFromMsg(msg)
+	for i := range flagsArg {
+		flagsArg[i] ^= 0xff
+	}
 	got := pb.ExtractMatches()
 	// the message is an argument: its hash list must be left as it was (same pointers, same values)
 	if len(msg.Hashes) != len(hs) {
@@ -55,6 +60,11 @@ func c12Eval(count uint32, hs []h32, ps []*chainhash.Hash, flags []byte) (string
 			count, len(hs), flags, got[:4], why)
 	}
 	if got == nil {
+		// a rejected message stays rejected, however often it is asked
+		if again := pb.ExtractMatches(); again != nil {
+			return why, fmt.Errorf("ExtractMatches(count=%d, %d hashes, flags %x) fails the first time and returns root %x the second time; the message must be rejected: %s",
+				count, len(hs), flags, again[:4], why)
+		}
 		return why, nil
 	}
 	if h32(*got) != root {
@@ -349,6 +359,50 @@ func exhaustiveC12(ev *Ev) {
 	ev.Sample("extract", c12Case{Count: 3, Hashes: []HexBytes{{1}, {2}}, Flags: HexBytes{0x0b}, Tag: "exhaustive"})
 }
 
+// ---- kind: the application lowers the cap -------------------------------------------------------
+// merkleblock.MaxTxnCount is an exported variable ("max block size variable"): what counts as too many
+// transactions is what it says when extraction runs, not what it said when the package was initialised.
+
+type c12Cap struct {
+	Cap     uint32 `json:"cap"`
+	Matched int    `json:"matched"`
+}
+
+func evalC12Cap(c c12Cap, o *Obs) error {
+	if c.Cap < 1 || c.Cap > 5000 {
+		return hbug("cap")
+	}
+	old := merkleblock.MaxTxnCount
+	merkleblock.MaxTxnCount = c.Cap
+	defer func() { merkleblock.MaxTxnCount = old }()
+	o.NT()
+	o.Class("C12:lowered-cap")
+	for _, n := range []uint32{c.Cap, c.Cap + 1, c.Cap + 2, 2 * c.Cap} {
+		leaves := make([]h32, n)
+		matched := make([]bool, n)
+		for i := range leaves {
+			leaves[i] = h32{byte(i), byte(i >> 8), 0x77}
+		}
+		matched[c.Matched%int(n)] = true
+		hs, bits := refPMTBuild(leaves, matched)
+		var ps []*chainhash.Hash
+		for i := range hs {
+			h := chainhash.Hash(hs[i])
+			ps = append(ps, &h)
+		}
+		got := merkleblock.NewMerkleBlockFromMsg(wire.MsgMerkleBlock{Transactions: n, Hashes: ps, Flags: packFlagBits(bits)}).ExtractMatches()
+		if (got != nil) != (n <= c.Cap) {
+			return fmt.Errorf("with merkleblock.MaxTxnCount = %d an honest proof for a block of %d transactions is accepted = %v", c.Cap, n, got != nil)
+		}
+	}
+	return nil
+}
+
+var kC12Cap = register(&Kind[c12Cap]{Prop: "C12", Name: "lowered-cap", Eval: evalC12Cap,
+	Gen: func(t *rapid.T) c12Cap {
+		return c12Cap{Cap: uint32(rapid.SampledFrom([]int{1, 2, 3, 7, 8, 100, 1000}).Draw(t, "cap")), Matched: rapid.IntRange(0, 5000).Draw(t, "m")}
+	}})
+
 func TestC12(t *testing.T) {
 	propTest(t, "C12", func(ev *Ev) {
 		ev.Rule("(a) exhaustive small scope: transaction count in {0..7, cap, cap+1, 2^32-1} x hash lists (length 0..count+1) over a "+
@@ -366,6 +420,7 @@ func TestC12(t *testing.T) {
 		}
 		exhaustiveC12(ev)
 		kC12.Run(t, ev, perShard(pick(20000, 6000000)))
+		kC12Cap.Run(t, ev, perShard(pick(40, 2000)))
 		ev.requireClasses("C12:accepted-with-matches", "C12:rejected:count 0", "C12:rejected:count too large",
 			"C12:rejected:more hashes than transactions", "C12:rejected:fewer flag bits than hashes", "C12:rejected:ran out of flag bits",
 			"C12:rejected:ran out of hashes", "C12:rejected:unused hash", "C12:rejected:unused flag byte", "C12:rejected:equal children",
